@@ -533,7 +533,7 @@ func ruleFastPathGate(c *eng.Ctx) {
 		return
 	}
 	isRF1 := func(v ssa.Value) bool {
-		return eng.BinComm(token.EQL, eng.LoadNamed("ReplicationFactor", nil), eng.IntConst(1))(v)
+		return eng.RelVal(eng.LoadNamed("ReplicationFactor", nil), eng.IntConst(1), eng.EQ)(v)
 	}
 	// the guard variable: a phi whose leaves are `ReplicationFactor == 1` or the constant false
 	var okGuard func(v ssa.Value, seen map[ssa.Value]bool) bool
